@@ -306,6 +306,9 @@ pub const STR_ALTS: &[&str] = &[
     "\"Mon\"",
     "\"2000-01-01T00:00:00\"",
     "\"\\u00e9\\u00e9\\u00e9\"",
+    "\"İ|tgt\"",
+    "\"st\u{212A}|tgt\"",
+    "\"\u{212A}|\"",
     "\"tgt,ldn|東京証券取引所の休日カレンダーの名前\"",
     "\"€a€€b€€€c€€€€d€€€€€e€€€€€€f\"",
     "\"aaaaaaaaaaaaaaaaaaaaaaaaaaaaaaaaaaaaaaaaaaaaaaaaaaaaaaaaaaaaaaaaaaaaaaaaaaaaaaaa\"",
